@@ -79,7 +79,8 @@ def Fs.entries (fs : Fs) (d : Str) : List Str :=
     if pre.isPrefixOf f.1 then (splitSlash (f.1.drop pre.length)).head? else none)
   (dedup names).mergeSort strLe
 
-def joinPath (d c : Str) : Str := if d.isEmpty then c else d ++ '/' :: c
+/-- `path.join(s)`; the walk drops a leading `.` component (`curdir` case of glob's `fill_todo`) -/
+def joinPath (d c : Str) : Str := if d.isEmpty ∨ d = ['.'] then c else d ++ '/' :: c
 
 /-- one step of the glob walk: extend every prefix by component `c` (a literal component must
     exist, a wildcard component lists the directory in sorted order) -/
@@ -126,7 +127,7 @@ def parseFile (cfg : PCfg) (fs : Fs) (fuel : Nat) (file : Str) (upper : List (St
   match fuel with
   | 0 => .error .outOfFuel
   | fuel' + 1 =>
-    match fs.read file with
+    match fs.read (normPath file) with   -- the OS resolves `.` / `..`
     | none => .error (.notFound file upper)
     | some script =>
       match parse cfg script with
